@@ -47,6 +47,11 @@ SNIPPETS = [
     "x = 1\n\x0cy = 2\n",
     "\x0c\ndef f():\n    pass\n\x0c\n",
     "def f():\n    pass\n\x0c    x = 1\n",
+    "class Page:\n    def first(self):\n        return 1\n   \x0cdef second(self):\n        return 2\n",
+    "class Page:\n    def first(self):\n        return 1\n\x0c    def second(self):\n        return 2\nx = 1\n",
+    "def a():\n    if x:\n        y\n \x0c  z = 1\n    w = 2\n",
+    "if x:\n    a\n\x0c\x0celse:\n    b\nc\n",
+    "def f():\n    x\n  \x0c\n    y\n\x0c\n\x0cdef g():\n    z\n",
     "x = 1",
     "def f():\n    pass",
     "def f():\n    x = 1\n    ",
